@@ -3,6 +3,9 @@ shapes, and the contract's tensor written with sums over whole dimensions.  One 
 decisions executes the real code on symbolic-shape tensors and compares normal forms, so a discharged obligation holds
 for every size of every dimension (and every value), not for the enumerated shapes only.
 """
+import os
+import re
+
 import numpy as np
 import torch
 
@@ -60,10 +63,15 @@ def run_cases(ctx, cases, prefix, canary=None, only=None):
 
         bad_paths = []
         loop_skipped = []
+        forked = [False]       # did any path of this case contain a decision about sizes?
 
         def thunk(case=case):
             try:
-                body(case)
+                try:
+                    body(case)
+                finally:
+                    if _size_dependent(vc.pc):
+                        forked[0] = True
             except G.LoopBroken as e:
                 # the loop contract is not re-established by the current body: no certificate; the verdict comes from the real
                 # code run with floats at small sizes of this path against the contract (bounded, labelled)
@@ -89,9 +97,22 @@ def run_cases(ctx, cases, prefix, canary=None, only=None):
             raised = None
             try:
                 res = case.call(**ins)
-            except (ValueError, RuntimeError, IndexError, TypeError) as e:
+            except (ValueError, RuntimeError, IndexError, TypeError, AttributeError, AssertionError) as e:
                 if isinstance(e, Unmodelled):
                     raise
+                # an exception counts as the library's behaviour only if the library raised it, or a primitive model raised
+                # what the real primitive raises; anything else (a ghost object reaching code that cannot take it) is an
+                # artefact of the symbolic run: no certificate, no verdict
+                import traceback as _tb
+                fr = _tb.extract_tb(e.__traceback__)
+                last = fr[-1].filename if fr else ""
+                if last.startswith("<sandbox:"):
+                    last = os.path.join(os.path.realpath(os.environ.get("QUCUMBER_REPO", "/repo")), "sandboxed")      # recompiled library source
+                else:
+                    last = os.path.realpath(last)
+                root = os.path.realpath(os.environ.get("QUCUMBER_REPO", "/repo"))
+                if not (last.startswith(root + os.sep) or isinstance(e, (G.TorchRuntimeError, G.TorchIndexError))):
+                    raise Unmodelled("artefact of the symbolic run (%s: %s at %s:%s)" % (type(e).__name__, str(e)[:120], os.path.basename(last), fr[-1].lineno if fr else "?"))
                 raised = e
             want = case.spec(**before)
             if canary and canary.startswith("generic-") and case.canary_spec is not None:
@@ -143,7 +164,7 @@ def run_cases(ctx, cases, prefix, canary=None, only=None):
             npaths = G.explore(vc, thunk, case.name)
             und = [k for k, v in vc.results.items() if k.startswith(pre) and any(x[0] == "undecided" for x in v)
                    and not any(x[0] == "violated" for x in v)]
-            if und and npaths == 1:
+            if und and not forked[0]:
                 # the normal form is incomplete here (e.g. softplus written out as log(1 + exp)): no certificate for every
                 # shape, no counterexample among the sampled sizes and values either; the per-shape proof of the same
                 # function stands.  With a single path no size-dependent branch exists that only this run would see.
@@ -162,6 +183,9 @@ def run_cases(ctx, cases, prefix, canary=None, only=None):
             # per-shape proof of the same property still stands); recorded, never counted
             npaths = vc.paths - p0
             vc.results = {k: v for k, v in vc.results.items() if not k.startswith(pre)}
+            bad_paths = [bp for bp in bad_paths if _size_dependent(bp[0])]
+            if not forked[0]:
+                npaths = 1
             if npaths > 1 and bad_paths:
                 # ... unless the code branches on a size: the enumerated shapes cannot vouch for the other branch.  The
                 # branch is then decided by running the real code at the smallest sizes that reach it (bounded, labelled)
@@ -192,6 +216,16 @@ def run_cases(ctx, cases, prefix, canary=None, only=None):
     for a in sorted(G.ASSUMED):
         ctx.assumed.add(a)
     return done
+
+
+def _size_dependent(pc):
+    """Does this path condition contain a decision about sizes (beyond the stated preconditions n >= k)?  Loop forks
+    and other free choices do not count."""
+    for c in pc:
+        s = str(c).replace("\n", " ")
+        if "dim_" in s and not re.fullmatch(r"dim_[\w()*+]+ >= \d+", s.strip()):
+            return True
+    return False
 
 
 def _cross_check(ctx, vc, case, want):
